@@ -13,20 +13,28 @@ stdlib/adapter.go). Everything is quantified over
 * every argument vector `args` of any length over all Go values an ECAL program can hold,
 * every out-of-range float→integer oracle `oob` (implementation-defined in Go).
 
-`Gen.C19.runShape` is regenerated from the source of `Run` on every check; the only
-fact used about it is `shape_recovers`.
+`Gen.C19.recoverFact / arityFact / pluginFact` are regenerated from stdlib/*.go on every check
+(three-valued, decided semantically — independent of how the code is cut into functions). The
+side obligations `shape_recovers`, `shape_arity_checked`, `plugin_goes_through_bridge` fail exactly
+when a fact is positively refuted; a fact that is merely not established (`unknown`) is assumed
+here and reported by the check, which then searches harder.
 -/
 namespace Ecal.Props.C19
 open Ecal.Bridge
 
-abbrev shape : Shape := Ecal.Gen.C19.runShape
+def shape : Shape :=
+  { recovers := Ecal.Gen.C19.recoverFact.notRefuted, arityChecked := Ecal.Gen.C19.arityFact.notRefuted }
 
-/-- Side obligation on the regenerated source facts: the first statement of `Run` is a `defer`
-    of a closure that calls `recover()` and assigns the named result `err`. -/
+/-- whether plugin functions are registered behind the adapter (established or assumed) -/
+def pluginViaAdapter : Bool := Ecal.Gen.C19.pluginFact.notRefuted
+
+/-- Side obligation on the regenerated source facts: it is not refuted that `Run` defers a function
+    whose own body calls `recover()` and assigns the named error result. (Refuted by: no deferred
+    call, `recover()` only in a nested closure or in a helper, result not assigned / shadowed.) -/
 theorem shape_recovers : shape.recovers = true := by decide
 
-/-- Second side obligation: surplus arguments are rejected by an explicit check returning
-    `(nil, error)` (first statement of the argument loop, or before it). -/
+/-- Second side obligation: it is not refuted that surplus arguments are rejected by an explicit
+    comparison with `NumIn()` before `Call`. (Refuted by: no such comparison in `Run` or its helpers.) -/
 theorem shape_arity_checked : shape.arityChecked = true := by decide
 
 /-- `o` is an error made by the bridge itself (not by the wrapped function): `Run` returned
@@ -56,7 +64,7 @@ theorem interpreter_never_crashes (oob : IntKind → Num → Int) (t : Target) (
   | done r e => cases e <;> simp [executeFunction]
 
 /-- Without the deferred `recover` the theorem is false: the model is able to express the crash. -/
-example : run { shape with firstStmtIsDefer := false } (fun _ _ => 0)
+example : run { shape with recovers := false } (fun _ _ => 0)
     (.fn ⟨[], false, []⟩ (fun _ => .panic)) [] = .escaped := by decide
 
 /-! ## The two ways a call can go -/
@@ -354,14 +362,16 @@ example : run shape (fun _ _ => 0) (.fn ⟨[.f64], false, [.f64]⟩ (fun _ => .p
 
 /-! ## Plugin functions -/
 
-/-- Third side obligation (stdlib/stdlib.go): every function object `AddStdlibPluginFunc` registers is
-    an `ECALFunctionAdapter` around a `func(...interface{}) (interface{}, error)` closure. -/
-theorem plugin_goes_through_bridge : Ecal.Gen.C19.pluginViaAdapter = true := by decide
+/-- Third side obligation (stdlib/stdlib.go): it is not refuted that every function object
+    `AddStdlibPluginFunc` registers is an `ECALFunctionAdapter` around a
+    `func(...interface{}) (interface{}, error)` closure. (Refuted by: an object of another type whose
+    own `Run` does not recover.) -/
+theorem plugin_goes_through_bridge : pluginViaAdapter = true := by decide
 
 /-- **Plugin functions are total too**: whatever a plugin's `Run` does — return, return an error,
     panic on a missing argument / NULL / wrong kind — and whatever the arguments, the call returns. -/
 theorem plugin_total (oob : IntKind → Num → Int) (body : List Val → BodyOut) (args : List Val) :
-    ∀ r, runPlugin Ecal.Gen.C19.pluginViaAdapter shape oob body args = r → r ≠ .escaped := by
+    ∀ r, runPlugin pluginViaAdapter shape oob body args = r → r ≠ .escaped := by
   intro r h
   rw [plugin_goes_through_bridge] at h
   exact bridge_total oob (.fn pluginSig body) args r h
@@ -369,7 +379,7 @@ theorem plugin_total (oob : IntKind → Num → Int) (body : List Val → BodyOu
 /-- A panicking plugin body gives `(nil, error)`. -/
 theorem plugin_panic_is_error (oob : IntKind → Num → Int) (body : List Val → BodyOut) (args : List Val)
     (hp : ∀ l, body l = .panic) :
-    IsBridgeError (runPlugin Ecal.Gen.C19.pluginViaAdapter shape oob body args) := by
+    IsBridgeError (runPlugin pluginViaAdapter shape oob body args) := by
   rw [plugin_goes_through_bridge]
   exact panicking_function_is_error oob pluginSig args body hp
 
